@@ -78,8 +78,12 @@ def accept_literals(fn_node) -> Optional[Set[Tuple[str, bool]]]:
             continue
         lits = sure_literals(fx)
         if not (isinstance(v, ast.Constant) and v.value):
+            if fx.known(v) is False:
+                continue              # on this path the returned expression is known to be false
             c = conj_literals(v, True)
             if c:
+                if any(fx.d.get(a) is (not p) for a, p in c):
+                    continue
                 lits |= c
         acc = lits if acc is None else (acc & lits)
     return acc
@@ -206,9 +210,9 @@ def expand_names(fn_node, stmt, expr, depth=3, chains=None):
         def visit_Name(self, n):
             if isinstance(n.ctx, ast.Load) and n.id not in params and depth > 0:
                 v = nearest_def(fn_node, stmt, n.id, chains)
-                if v is not None and isinstance(v, (ast.Subscript, ast.Attribute, ast.Name, ast.Call, ast.BinOp, ast.Compare, ast.BoolOp)):
+                if v is not None and isinstance(v, (ast.Subscript, ast.Attribute, ast.Name, ast.Call, ast.BinOp, ast.Compare, ast.BoolOp, ast.IfExp, ast.Constant, ast.UnaryOp)):
                     from .canon import _pure
-                    if _pure(v, False):
+                    if _pure(v, True):
                         return expand_names(fn_node, stmt, _copy.deepcopy(v), depth - 1, chains)
             return n
     return R().visit(_copy.deepcopy(expr))
